@@ -84,6 +84,7 @@ var valueKinds = []string{
 // not on single values, so sampling pairs from the whole kind list seldom
 // meets the ones that matter.
 var boundaryNums = kindIndexes("undefined", "0", "NaN", "1", "-1", "1.5", "-3", "2147483648", "4294967296", "9007199254740992", "9223372036854775807", "1e21", "-1e300", "Infinity", "-Infinity")
+var boundaryFirst = kindIndexes("undefined", "1", "[1,2,3,4,5,6]")
 var boundaryRecv = kindIndexes(`"abcdefgh"`, `"a\u00e9\ud83d\ude00"`, "[1,2,3,4,5,6]", `({length:3,0:"a",2:"c"})`, "goSlice")
 
 func kindIndexes(names ...string) []int {
@@ -455,7 +456,7 @@ $n`, fn, ints(ts), ints(as), ints(bs), ints(cs), lim, call)
 	c.Feature("via:" + via)
 }
 
-var goErrRe = regexp.MustCompile(`runtime error:|\(runtime\.\w+\)|interface conversion:|reflect: |nil pointer dereference|index out of range|slice bounds out of range`)
+var goErrRe = regexp.MustCompile(`runtime error:|\(runtime\.\w+\)|interface conversion:|reflect: |nil pointer dereference|index out of range|slice bounds out of range|^(strings|bytes|sort|time|math/big|unicode/utf8|unicode/utf16|sync): `)
 
 // goRuntimeError reports a Go run-time error (nil dereference, index out of
 // range, failed type assertion) inside a built-in. Inside a script's try block
@@ -522,6 +523,9 @@ func exec(c *run.Ctx, i int) {
 		runBatch(c, fn, "new", []int{0}, sample(r, nk, na+2), sample(r, nk, na), sample(r, nk, 2))
 		runBatch(c, fn, "newbind", sample(r, nk, 2), sample(r, nk, 2), sample(r, nk, 2), []int{0})
 		runBatch(c, fn, "call", boundaryRecv, boundaryNums, boundaryNums, []int{0})
+		// the same boundary values as third argument (counts, gaps, limits), and every receiver with no argument at all
+		runBatch(c, fn, "call", boundaryRecv[:3], boundaryFirst, boundaryFirst, boundaryNums)
+		runBatch(c, fn, "call0", seq(nk), []int{0}, []int{0}, []int{0})
 		if c.Index%7 == 0 {
 			c.Sample(map[string]interface{}{"fn": fn, "receivers": nk, "arg_kinds": na})
 		}
